@@ -776,6 +776,44 @@ func (fr *frame) builtin(b *ssa.Builtin, call *ssa.Call, args []Value) Value {
 			panic(goPanic{val: "value method called using nil pointer", where: in.where(call)})
 		}
 		return args[0]
+	case "String": // unsafe.String(ptr, len)
+		p := args[0].(Pointer)
+		n := in.concreteInt(args[1], "unsafe.String len")
+		if n == 0 {
+			return ""
+		}
+		if p.isNil() || len(p.path) == 0 {
+			unsup("unsafe.String on a pointer that is not an array element")
+		}
+		base := Pointer{obj: p.obj, path: p.path[:len(p.path)-1]}
+		start := p.path[len(p.path)-1]
+		arr := (*base.slot()).(*Array)
+		bs := make([]*Term, n)
+		for i := 0; i < n; i++ {
+			bs[i] = toTerm(arr.e[start+i], 8)
+		}
+		return strFromBytes(bs)
+	case "SliceData":
+		s := args[0].(Slice)
+		if s.isNil || s.cap == 0 {
+			return Pointer{}
+		}
+		return s.at(0)
+	case "StringData":
+		unsup("unsafe.StringData")
+	case "Slice": // unsafe.Slice(ptr, len)
+		p := args[0].(Pointer)
+		n := in.concreteInt(args[1], "unsafe.Slice len")
+		if p.isNil() || len(p.path) == 0 {
+			if n == 0 {
+				return Slice{isNil: true}
+			}
+			unsup("unsafe.Slice on a pointer that is not an array element")
+		}
+		base := Pointer{obj: p.obj, path: p.path[:len(p.path)-1]}
+		start := p.path[len(p.path)-1]
+		total := len((*base.slot()).(*Array).e)
+		return Slice{arr: base, off: start, len: n, cap: total - start}
 	case "real":
 		return real(args[0].(complex128))
 	case "imag":
